@@ -6,7 +6,13 @@ struct VInj : FSM::State {
 	using typename FSM::State::Control; using typename FSM::State::PlanControl; using typename FSM::State::FullControl;
 	using typename FSM::State::GuardControl; using typename FSM::State::EventControl; using typename FSM::State::ConstControl;
 	static void jrec(Probe& p, int meth) { ++p.callbacks; if (!p.quiet) { p.log->tag('j'); p.log->i(meth); p.log->i(ID); p.log->nl(); } }
-	void entryGuard(GuardControl& c) { jrec(c.context(), 4); }
+	// an injected guard may veto as well (knob pInjCancel); the state's own guard, which always runs afterwards, reports the veto in its 'g' line
+	static void jguard(GuardControl& c, int meth) {
+		Probe& p = c.context(); jrec(p, meth);
+		if (p.quiet || p.noCancel || p.passive) return;
+		if (p.chance(p.k.pInjCancel)) { p.injCancel = true; c.cancelPendingTransitions(); }
+	}
+	void entryGuard(GuardControl& c) { jguard(c, 4); }
 	void enter(PlanControl& c) { jrec(c.context(), 5); }
 	void reenter(PlanControl& c) { jrec(c.context(), 6); }
 	void preUpdate(FullControl& c) { jrec(c.context(), 7); }
@@ -16,7 +22,7 @@ struct VInj : FSM::State {
 	template <typename E> void react(const E&, EventControl& c) { jrec(c.context(), 11); }
 	template <typename E> void postReact(const E&, EventControl& c) { jrec(c.context(), 13); }
 	template <typename Q> void query(Q&, ConstControl& c) const { jrec(const_cast<Probe&>(c.context()), 12); }
-	void exitGuard(GuardControl& c) { jrec(c.context(), 14); }
+	void exitGuard(GuardControl& c) { jguard(c, 14); }
 	void exit(PlanControl& c) { jrec(c.context(), 15); }
 };
 }
